@@ -1,8 +1,10 @@
 import SigModel.Model.Bulk
+import SigModel.Lemmas.C15
 /-
-Helper lemmas for C15, part 2 (after the loop): the grouping of the accepted documents into one batch per index
-name, `ProcessIndexRequestPle` on such a batch, and what reaches the store.  Everything here is about an
-arbitrary list `ples` of (index name, document) pairs; `Props/C15.lean` instantiates it with the loop's result.
+Helper lemmas for C15, part 2 (after the loop): the grouping of the accepted events into one batch per index
+name, `ProcessIndexRequestPle` on such a batch, what reaches the store, which response items the repaired code
+overwrites when the store refuses a batch, and the specification vocabulary for the final response
+(`created`, `docsOf`, `refusedIdx`, `finalStatus`, `finalItems`, `finalDocsOf`).
 -/
 namespace SigModel.Lemmas.C15
 open SigModel.Bulk
@@ -36,17 +38,13 @@ theorem filter_beq_nodup (l : List Nat) (h : l.Nodup) (x : Nat) :
     · have e' : ¬ x = k := fun h => e h.symm
       simp [ih hr, e, e']
 
-/-- the calls `HandleBulkBody` makes after its loop, as a function of `allPLEs` -/
-def callsOf (env : Env) (ples : List (Nat × Nat)) : List Call :=
-  (batches ples).map (fun kb => { idx := kb.1, docs := kb.2, res := processPle env kb.1 kb.2 })
-
 theorem handleReq_calls (env : Env) (body : List Line) :
-    (handleReq env body).calls = callsOf env (handle env body).ples := rfl
+    (handleReq env body).calls = callsOf env (handle Version.fixed env body).ples := rfl
 
-theorem handleReq_st (env : Env) (body : List Line) : (handleReq env body).st = handle env body := rfl
+theorem handleReq_st (env : Env) (body : List Line) : (handleReq env body).st = handle Version.fixed env body := rfl
 
 /-- there is at most one call per index name, and it carries exactly the events of that name, in slice order -/
-theorem callsOf_filter (env : Env) (ples : List (Nat × Nat)) (x : Nat) :
+theorem callsOf_filter (env : Env) (ples : List Ple) (x : Nat) :
     (callsOf env ples).filter (·.idx == x) =
       if x ∈ ples.map (·.1) then
         [{ idx := x, docs := ples.filter (·.1 == x), res := processPle env x (ples.filter (·.1 == x)) }]
@@ -54,7 +52,7 @@ theorem callsOf_filter (env : Env) (ples : List (Nat × Nat)) (x : Nat) :
   unfold callsOf batches
   rw [List.map_map, List.filter_map]
   have hf : ((fun c : Call => c.idx == x) ∘
-      ((fun kb : Nat × List (Nat × Nat) => ({ idx := kb.1, docs := kb.2, res := processPle env kb.1 kb.2 } : Call)) ∘
+      ((fun kb : Nat × List Ple => ({ idx := kb.1, docs := kb.2, res := processPle env kb.1 kb.2 } : Call)) ∘
         fun k => (k, List.filter (fun p => p.1 == k) ples))) = (fun k => k == x) := by
     funext k; rfl
   rw [hf, filter_beq_nodup _ (keysOf_nodup _)]
@@ -67,9 +65,9 @@ theorem callsOf_filter (env : Env) (ples : List (Nat × Nat)) (x : Nat) :
     simp only [List.map_nil]
 
 /-- a batch built by the grouping passes the index-name consistency check of `ProcessIndexRequestPle` -/
-theorem processPle_own (env : Env) (ples : List (Nat × Nat)) (x : Nat) (hv : env.valid x = true) :
+theorem processPle_own (env : Env) (ples : List Ple) (x : Nat) (hv : env.valid x = true) :
     processPle env x (ples.filter (·.1 == x)) =
-      if env.store (env.resolve x) ((ples.filter (·.1 == x)).map (·.2)) then .stored (env.resolve x)
+      if env.store (env.resolve x) ((ples.filter (·.1 == x)).map (·.2.1)) then .stored (env.resolve x)
       else .refused (env.resolve x) := by
   have h : (ples.filter (·.1 == x)).any (·.1 != x) = false := by
     rw [List.any_eq_false]
@@ -79,7 +77,7 @@ theorem processPle_own (env : Env) (ples : List (Nat × Nat)) (x : Nat) (hv : en
     simp [this]
   simp [processPle, h, hv]
 
-theorem filter_nil_of_not_mem (ples : List (Nat × Nat)) (x : Nat) (h : x ∉ ples.map (·.1)) :
+theorem filter_nil_of_not_mem (ples : List Ple) (x : Nat) (h : x ∉ ples.map (·.1)) :
     ples.filter (·.1 == x) = [] := by
   rw [List.filter_eq_nil_iff]
   intro p hp he
@@ -88,21 +86,23 @@ theorem filter_nil_of_not_mem (ples : List (Nat × Nat)) (x : Nat) (h : x ∉ pl
   exact List.mem_map.2 ⟨p, hp, he⟩
 
 /-- everything handed over under index name `x` = the events that carry `x`, in slice order -/
-theorem handedUnder_callsOf (env : Env) (st : St) (ples : List (Nat × Nat)) (x : Nat) :
-    ({ st := st, calls := callsOf env ples } : Resp).handedUnder x = ples.filter (·.1 == x) := by
+theorem handedUnder_callsOf (env : Env) (r : Resp) (ples : List Ple) (hr : r.calls = callsOf env ples) (x : Nat) :
+    r.handedUnder x = ples.filter (·.1 == x) := by
   unfold Resp.handedUnder
+  rw [hr]
   simp only [callsOf_filter]
   by_cases h : x ∈ ples.map (·.1)
   · simp [h]
   · rw [filter_nil_of_not_mem ples x h]; simp [h]
 
 /-- what the store took under index name `x`: the documents of `x` if it accepted their batch, nothing otherwise -/
-theorem storedUnder_callsOf (env : Env) (st : St) (ples : List (Nat × Nat)) (x : Nat)
+theorem storedUnder_callsOf (env : Env) (r : Resp) (ples : List Ple) (hr : r.calls = callsOf env ples) (x : Nat)
     (hv : ∀ p ∈ ples, env.valid p.1 = true) :
-    ({ st := st, calls := callsOf env ples } : Resp).storedUnder x =
-      if env.store (env.resolve x) ((ples.filter (·.1 == x)).map (·.2)) then (ples.filter (·.1 == x)).map (·.2)
+    r.storedUnder x =
+      if env.store (env.resolve x) ((ples.filter (·.1 == x)).map (·.2.1)) then (ples.filter (·.1 == x)).map (·.2.1)
       else [] := by
   unfold Resp.storedUnder
+  rw [hr]
   have hsplit : (callsOf env ples).filter (fun c => c.idx == x && c.accepted) =
       ((callsOf env ples).filter (·.idx == x)).filter (·.accepted) := by
     rw [List.filter_filter]; congr 1; funext c; exact Bool.and_comm _ _
@@ -111,12 +111,12 @@ theorem storedUnder_callsOf (env : Env) (st : St) (ples : List (Nat × Nat)) (x 
   · obtain ⟨p, hp, hpx⟩ := List.mem_map.1 h
     have hvx : env.valid x = true := hpx ▸ hv p hp
     rw [if_pos h, processPle_own env ples x hvx]
-    cases hs : env.store (env.resolve x) ((ples.filter (·.1 == x)).map (·.2)) <;>
+    cases hs : env.store (env.resolve x) ((ples.filter (·.1 == x)).map (·.2.1)) <;>
       simp [Call.accepted]
   · rw [filter_nil_of_not_mem ples x h]; simp [h]
 
 /-- every call the grouping produces reaches the store, under the real index of its own name -/
-theorem callsOf_res (env : Env) (ples : List (Nat × Nat)) (hv : ∀ p ∈ ples, env.valid p.1 = true)
+theorem callsOf_res (env : Env) (ples : List Ple) (hv : ∀ p ∈ ples, env.valid p.1 = true)
     (c : Call) (hc : c ∈ callsOf env ples) :
     (c.res = .stored (env.resolve c.idx) ∨ c.res = .refused (env.resolve c.idx)) ∧
     (∀ p ∈ c.docs, p.1 = c.idx) ∧ c.docs = ples.filter (·.1 == c.idx) ∧ c.docs ≠ [] := by
@@ -134,7 +134,7 @@ theorem callsOf_res (env : Env) (ples : List (Nat × Nat)) (hv : ∀ p ∈ ples,
       have := congrArg Call.res hc'; simpa using this
     refine ⟨?_, ?_, hdocs, ?_⟩
     · rw [hres, processPle_own env ples c.idx hvx]
-      cases env.store (env.resolve c.idx) ((ples.filter (·.1 == c.idx)).map (·.2)) <;> simp
+      cases env.store (env.resolve c.idx) ((ples.filter (·.1 == c.idx)).map (·.2.1)) <;> simp
     · intro q hq
       rw [hdocs] at hq
       have := (List.mem_filter.1 hq).2
@@ -147,9 +147,349 @@ theorem callsOf_res (env : Env) (ples : List (Nat × Nat)) (hv : ∀ p ∈ ples,
   · rw [if_neg h] at hmem; cases hmem
 
 /-- at most one call per index name -/
-theorem callsOf_count (env : Env) (ples : List (Nat × Nat)) (x : Nat) :
+theorem callsOf_count (env : Env) (ples : List Ple) (x : Nat) :
     ((callsOf env ples).filter (·.idx == x)).length ≤ 1 := by
   rw [callsOf_filter]
   split <;> simp
+
+/-! ### the items after the store calls (repair c15-3) -/
+
+theorem getElem?_set_eq (l : List Status) (i k : Nat) (u : Status) :
+    (l.set i u)[k]? = if i = k then (l[k]?).map (fun _ => u) else l[k]? := by
+  by_cases h : i = k
+  · subst h
+    by_cases hl : i < l.length
+    · simp [hl]
+    · simp [hl]
+  · simp [h, List.getElem?_set_ne]
+
+theorem getElem?_markUnavailable (items : List Status) (batch : List Ple) (k : Nat) :
+    (markUnavailable items batch)[k]? =
+      if batch.any (·.2.2 == k) then (items[k]?).map (fun _ => Status.unavailable) else items[k]? := by
+  unfold markUnavailable
+  induction batch generalizing items with
+  | nil => simp
+  | cons p r ih =>
+    rw [List.foldl_cons, ih, getElem?_set_eq]
+    by_cases h1 : p.2.2 = k <;> by_cases h2 : r.any (·.2.2 == k) = true
+    all_goals simp [h1, h2]
+    all_goals cases items[k]? <;> simp
+
+theorem getElem?_markCalls (items : List Status) (cs : List Call) (k : Nat) :
+    (cs.foldl (fun its c => markUnavailable its c.docs) items)[k]? =
+      if cs.any (fun c => c.docs.any (·.2.2 == k)) then (items[k]?).map (fun _ => Status.unavailable) else items[k]? := by
+  induction cs generalizing items with
+  | nil => simp
+  | cons c r ih =>
+    rw [List.foldl_cons, ih, getElem?_markUnavailable]
+    by_cases h1 : c.docs.any (·.2.2 == k) = true <;> by_cases h2 : r.any (fun c => c.docs.any (·.2.2 == k)) = true
+    all_goals simp [h1, h2]
+    all_goals cases items[k]? <;> simp
+
+
+/-- what a member of `callsOf` is -/
+theorem callsOf_mem (env : Env) (ples : List Ple) (c : Call) (hc : c ∈ callsOf env ples) :
+    c.idx ∈ ples.map (·.1) ∧ c.docs = ples.filter (·.1 == c.idx) ∧ c.res = processPle env c.idx c.docs := by
+  have hmem : c ∈ (callsOf env ples).filter (·.idx == c.idx) := by
+    rw [List.mem_filter]; exact ⟨hc, by simp⟩
+  rw [callsOf_filter] at hmem
+  by_cases h : c.idx ∈ ples.map (·.1)
+  · rw [if_pos h] at hmem
+    have hc' := List.mem_singleton.1 hmem
+    have hdocs : c.docs = ples.filter (·.1 == c.idx) := by
+      have := congrArg Call.docs hc'; simpa using this
+    have hres : c.res = processPle env c.idx (ples.filter (·.1 == c.idx)) := by
+      have := congrArg Call.res hc'; simpa using this
+    exact ⟨h, hdocs, by rw [hres, hdocs]⟩
+  · rw [if_neg h] at hmem; cases hmem
+
+theorem mem_callsOf_of_mem (env : Env) (ples : List Ple) (p : Ple) (hp : p ∈ ples) :
+    ({ idx := p.1, docs := ples.filter (·.1 == p.1), res := processPle env p.1 (ples.filter (·.1 == p.1)) } : Call)
+      ∈ callsOf env ples := by
+  have h : p.1 ∈ ples.map (·.1) := List.mem_map.2 ⟨p, hp, rfl⟩
+  have := callsOf_filter env ples p.1
+  rw [if_pos h] at this
+  have hm : ({ idx := p.1, docs := ples.filter (·.1 == p.1), res := processPle env p.1 (ples.filter (·.1 == p.1)) } : Call)
+      ∈ (callsOf env ples).filter (·.idx == p.1) := by rw [this]; simp
+  exact (List.mem_filter.1 hm).1
+
+/-- the item positions the repaired code overwrites: those of the events whose index's batch the store refused -/
+theorem marked_iff (env : Env) (ples : List Ple) (hv : ∀ p ∈ ples, env.valid p.1 = true) (k : Nat) :
+    ((callsOf env ples).filter (fun c => !c.accepted)).any (fun c => c.docs.any (·.2.2 == k)) = true ↔
+    ∃ p ∈ ples, p.2.2 = k ∧ env.store (env.resolve p.1) ((ples.filter (·.1 == p.1)).map (·.2.1)) = false := by
+  constructor
+  · intro h
+    obtain ⟨c, hc, hk⟩ := List.any_eq_true.1 h
+    obtain ⟨hc1, hacc⟩ := List.mem_filter.1 hc
+    obtain ⟨p, hp, hpk⟩ := List.any_eq_true.1 hk
+    obtain ⟨hidx, hdocs, hres⟩ := callsOf_mem env ples c hc1
+    rw [hdocs] at hp
+    obtain ⟨hp1, hp2⟩ := List.mem_filter.1 hp
+    have hpi : p.1 = c.idx := by simpa using hp2
+    refine ⟨p, hp1, by simpa using hpk, ?_⟩
+    have hvx : env.valid c.idx = true := hpi ▸ hv p hp1
+    rw [hdocs, processPle_own env ples c.idx hvx] at hres
+    rw [hpi]
+    cases hs : env.store (env.resolve c.idx) ((ples.filter (·.1 == c.idx)).map (·.2.1))
+    · rfl
+    · rw [hs] at hres
+      simp [Call.accepted, hres] at hacc
+  · rintro ⟨p, hp, hpk, hs⟩
+    rw [List.any_eq_true]
+    refine ⟨_, List.mem_filter.2 ⟨mem_callsOf_of_mem env ples p hp, ?_⟩, ?_⟩
+    · simp [Call.accepted, processPle_own env ples p.1 (hv p hp), hs]
+    · rw [List.any_eq_true]
+      exact ⟨p, List.mem_filter.2 ⟨hp, by simp⟩, by simp [hpk]⟩
+
+/-! ### the specification the final response is compared with -/
+
+/-- the (index name, document) pairs of the actions the loop answers `created`, in request order -/
+def created (env : Env) (acts : List Act) : List (Nat × Nat) := acts.flatMap (Act.storedOf env)
+
+/-- the documents the loop accepted for index name `x`, in request order: the batch handed to the store -/
+def docsOf (env : Env) (acts : List Act) (x : Nat) : List Nat :=
+  ((created env acts).filter (·.1 == x)).map (·.2)
+
+/-- the store refuses the batch of index name `x` -/
+def refusedIdx (env : Env) (acts : List Act) (x : Nat) : Bool := !env.store (env.resolve x) (docsOf env acts x)
+
+/-- the status an action is finally answered with: that of the loop, unless the store refused the batch of its index -/
+def finalStatus (env : Env) (acts : List Act) (a : Act) : Status :=
+  if a.status env = Status.created ∧ refusedIdx env acts a.idxOf = true then Status.unavailable else a.status env
+
+theorem plesFrom_proj (env : Env) (acts : List Act) (off : Nat) :
+    (plesFrom env acts off).map (fun p => (p.1, p.2.1)) = created env acts := by
+  induction acts generalizing off with
+  | nil => rfl
+  | cons a r ih =>
+    simp only [plesFrom, List.map_append, ih, created, List.flatMap_cons, Act.pleOf, List.map_map]
+    congr 1
+    exact List.map_id' _
+
+theorem mem_plesFrom (env : Env) (acts : List Act) (off : Nat) (p : Ple) :
+    p ∈ plesFrom env acts off ↔ ∃ j a, acts[j]? = some a ∧ (p.1, p.2.1) ∈ a.storedOf env ∧ p.2.2 = off + j := by
+  induction acts generalizing off with
+  | nil => simp [plesFrom]
+  | cons a r ih =>
+    simp only [plesFrom, List.mem_append, ih]
+    constructor
+    · rintro (h | ⟨j, b, hj, hb, hp⟩)
+      · obtain ⟨q, hq, rfl⟩ := List.mem_map.1 h
+        exact ⟨0, a, by simp, by simpa using hq, by simp⟩
+      · exact ⟨j + 1, b, by simpa using hj, hb, by omega⟩
+    · rintro ⟨j, b, hj, hb, hp⟩
+      cases j with
+      | zero =>
+        left
+        simp at hj; subst hj
+        refine List.mem_map.2 ⟨(p.1, p.2.1), hb, ?_⟩
+        have hp' : p.2.2 = off := by simpa using hp
+        obtain ⟨p1, p2, p3⟩ := p
+        simp at hp'
+        simp [hp']
+      | succ j => right; exact ⟨j, b, by simpa using hj, hb, by omega⟩
+
+theorem docs_plesFrom (env : Env) (acts : List Act) (off x : Nat) :
+    ((plesFrom env acts off).filter (·.1 == x)).map (·.2.1) = docsOf env acts x := by
+  unfold docsOf
+  rw [← plesFrom_proj env acts off, List.filter_map, List.map_map]
+  rfl
+
+theorem plesFrom_valid (env : Env) (acts : List Act) (off : Nat) : ∀ p ∈ plesFrom env acts off, env.valid p.1 = true := by
+  intro p hp
+  obtain ⟨j, a, _, hb, _⟩ := (mem_plesFrom env acts off p).1 hp
+  cases a with
+  | single l => simp [Act.storedOf] at hb
+  | withDoc x d =>
+    by_cases h : x.kind ≠ Kind.update ∧ env.valid x.idx = true ∧ d.len < maxRecordSize ∧ env.kibana x.idx = false ∧ d.docOk
+    · simp only [Act.storedOf, if_pos h, List.mem_singleton] at hb
+      have : p.1 = x.idx := congrArg Prod.fst hb
+      rw [this]; exact h.2.1
+    · simp only [Act.storedOf, if_neg h] at hb
+      cases hb
+
+
+theorem handleReq_items (env : Env) (body : List Line) :
+    (handleReq env body).items =
+      ((callsOf env (handle Version.fixed env body).ples).filter (fun c => !c.accepted)).foldl
+        (fun its c => markUnavailable its c.docs) (handle Version.fixed env body).items := rfl
+
+theorem handleReq_errors (env : Env) (body : List Line) :
+    (handleReq env body).errors =
+      ((handle Version.fixed env body).overallError ||
+        !((callsOf env (handle Version.fixed env body).ples).filter (fun c => !c.accepted)).isEmpty) := rfl
+
+/-- position `k` is overwritten iff action `k` was answered created by the loop and the store refused its index -/
+theorem marked_action (env : Env) (acts : List Act) (k : Nat) (a : Act) (ha : acts[k]? = some a) :
+    ((callsOf env (plesFrom env acts 0)).filter (fun c => !c.accepted)).any (fun c => c.docs.any (·.2.2 == k)) = true ↔
+    (a.status env = Status.created ∧ refusedIdx env acts a.idxOf = true) := by
+  rw [marked_iff env _ (plesFrom_valid env acts 0) k]
+  constructor
+  · rintro ⟨p, hp, hpk, hs⟩
+    obtain ⟨j, b, hj, hb, hpj⟩ := (mem_plesFrom env acts 0 p).1 hp
+    have hjk : j = k := by omega
+    subst hjk
+    have hba : b = a := by rw [hj] at ha; exact Option.some.inj ha
+    subst hba
+    have hne : b.storedOf env ≠ [] := by intro h; rw [h] at hb; cases hb
+    have hcr := (storedOf_ne_nil_iff env b).1 hne
+    rw [storedOf_of_created env b hcr, List.mem_singleton] at hb
+    have hp1 : p.1 = b.idxOf := congrArg Prod.fst hb
+    refine ⟨hcr, ?_⟩
+    rw [docs_plesFrom, hp1] at hs
+    simp [refusedIdx, hs]
+  · rintro ⟨hcr, href⟩
+    refine ⟨(a.idxOf, a.docId, k), ?_, rfl, ?_⟩
+    · rw [mem_plesFrom]
+      exact ⟨k, a, ha, by rw [storedOf_of_created env a hcr]; simp, by simp⟩
+    · rw [docs_plesFrom]
+      simpa [refusedIdx] using href
+
+theorem not_marked_beyond (env : Env) (acts : List Act) (k : Nat) (hk : acts.length ≤ k) :
+    ((callsOf env (plesFrom env acts 0)).filter (fun c => !c.accepted)).any (fun c => c.docs.any (·.2.2 == k)) = false := by
+  rw [Bool.eq_false_iff]
+  intro h
+  obtain ⟨p, hp, hpk, _⟩ := (marked_iff env _ (plesFrom_valid env acts 0) k).1 h
+  obtain ⟨j, b, hj, _, hpj⟩ := (mem_plesFrom env acts 0 p).1 hp
+  have : j < acts.length := by
+    rcases Nat.lt_or_ge j acts.length with h | h
+    · exact h
+    · rw [List.getElem?_eq_none h] at hj; cases hj
+  omega
+
+/-- the items of the response of the repaired code: the per-action specification, with `unavailable` for the
+created items of an index whose batch the store refused -/
+theorem final_items (env : Env) (acts : List Act) (dangling : Option Line) (nl : Bool)
+    (hwf : ∀ a ∈ acts, a.wf) (hd : ∀ l, dangling = some l → l.kind ≠ Kind.other ∧ 0 < l.len) :
+    (handleReq env (bodyOf acts dangling nl)).items = acts.map (finalStatus env acts) ++ tailItems dangling := by
+  obtain ⟨h1, h2, _⟩ := handle_spec env acts dangling nl hwf hd
+  rw [handleReq_items, h1, h2]
+  apply List.ext_getElem?
+  intro k
+  rw [getElem?_markCalls]
+  rcases Nat.lt_or_ge k acts.length with hk | hk
+  · have ha : acts[k]? = some acts[k] := List.getElem?_eq_getElem hk
+    have hl : (loopItems env acts dangling)[k]? = some (acts[k].status env) := by
+      simp [loopItems, List.getElem?_append_left, hk]
+    have hr : (acts.map (finalStatus env acts) ++ tailItems dangling)[k]? = some (finalStatus env acts acts[k]) := by
+      simp [List.getElem?_append_left, hk]
+    rw [hl, hr]
+    by_cases hm : (acts[k].status env = Status.created ∧ refusedIdx env acts acts[k].idxOf = true)
+    · rw [if_pos ((marked_action env acts k _ ha).2 hm)]
+      simp [finalStatus, hm]
+    · have : ¬ (((callsOf env (plesFrom env acts 0)).filter (fun c => !c.accepted)).any
+          (fun c => c.docs.any (·.2.2 == k)) = true) := fun h => hm ((marked_action env acts k _ ha).1 h)
+      rw [if_neg this]
+      simp [finalStatus, hm]
+  · rw [not_marked_beyond env acts k hk]
+    simp [loopItems, List.getElem?_append_right, hk]
+
+
+/-- the items the repaired code answers -/
+def finalItems (env : Env) (acts : List Act) (dangling : Option Line) : List Status :=
+  acts.map (finalStatus env acts) ++ tailItems dangling
+
+theorem finalStatus_ne_created_of (env : Env) (acts : List Act) (a : Act) (h : a.status env ≠ Status.created) :
+    finalStatus env acts a = a.status env := by
+  simp [finalStatus, h]
+
+/-- `errors` of the repaired code: true iff some item of the response is not `created` -/
+theorem final_errors (env : Env) (acts : List Act) (dangling : Option Line) (nl : Bool)
+    (hwf : ∀ a ∈ acts, a.wf) (hd : ∀ l, dangling = some l → l.kind ≠ Kind.other ∧ 0 < l.len) :
+    (handleReq env (bodyOf acts dangling nl)).errors = (finalItems env acts dangling).any (· ≠ Status.created) := by
+  obtain ⟨_, h2, h3⟩ := handle_spec env acts dangling nl hwf hd
+  rw [handleReq_errors, h2, h3, Bool.eq_iff_iff]
+  simp only [Bool.or_eq_true, List.any_eq_true, decide_eq_true_eq, Bool.not_eq_true', List.isEmpty_eq_false_iff]
+  constructor
+  · rintro (⟨s, hs, hne⟩ | hB)
+    · -- an item the loop already failed
+      simp only [loopItems, List.mem_append, List.mem_map] at hs
+      rcases hs with ⟨a, ha, rfl⟩ | ht
+      · refine ⟨finalStatus env acts a, ?_, ?_⟩
+        · simp only [finalItems, List.mem_append, List.mem_map]; exact Or.inl ⟨a, ha, rfl⟩
+        · rw [finalStatus_ne_created_of env acts a hne]; exact hne
+      · exact ⟨s, by simp only [finalItems, List.mem_append]; exact Or.inr ht, hne⟩
+    · -- a refused batch: one of its events marks an item
+      obtain ⟨c, hc⟩ := List.exists_mem_of_ne_nil _ hB
+      obtain ⟨hc1, _⟩ := List.mem_filter.1 hc
+      obtain ⟨_, _, _, hne⟩ := callsOf_res env _ (plesFrom_valid env acts 0) c hc1
+      obtain ⟨p, hp⟩ := List.exists_mem_of_ne_nil _ hne
+      have hm : ((callsOf env (plesFrom env acts 0)).filter (fun c => !c.accepted)).any
+          (fun c => c.docs.any (·.2.2 == p.2.2)) = true := by
+        rw [List.any_eq_true]; exact ⟨c, hc, by rw [List.any_eq_true]; exact ⟨p, hp, by simp⟩⟩
+      rcases Nat.lt_or_ge p.2.2 acts.length with hk | hk
+      · have ha : acts[p.2.2]? = some acts[p.2.2] := List.getElem?_eq_getElem hk
+        have hcond := (marked_action env acts p.2.2 _ ha).1 hm
+        refine ⟨finalStatus env acts acts[p.2.2], ?_, ?_⟩
+        · simp only [finalItems, List.mem_append, List.mem_map]
+          exact Or.inl ⟨acts[p.2.2], List.getElem_mem hk, rfl⟩
+        · simp [finalStatus, hcond]
+      · rw [not_marked_beyond env acts p.2.2 hk] at hm; cases hm
+  · rintro ⟨s, hs, hne⟩
+    simp only [finalItems, List.mem_append, List.mem_map] at hs
+    rcases hs with ⟨a, ha, rfl⟩ | ht
+    · by_cases hcond : (a.status env = Status.created ∧ refusedIdx env acts a.idxOf = true)
+      · right
+        obtain ⟨k, hk⟩ := List.mem_iff_getElem?.1 ha
+        have hm := (marked_action env acts k a hk).2 hcond
+        intro hnil
+        rw [hnil] at hm
+        simp at hm
+      · left
+        have hst : finalStatus env acts a = a.status env := by simp [finalStatus, hcond]
+        refine ⟨a.status env, ?_, by rw [← hst]; exact hne⟩
+        simp only [loopItems, List.mem_append, List.mem_map]; exact Or.inl ⟨a, ha, rfl⟩
+    · left
+      exact ⟨s, by simp only [loopItems, List.mem_append]; exact Or.inr ht, hne⟩
+
+/-- the documents of the actions finally answered `created` that address index name `x`, in request order -/
+def finalDocsOf (env : Env) (acts : List Act) (x : Nat) : List Nat :=
+  (acts.filter (fun a => finalStatus env acts a == Status.created && a.idxOf == x)).map Act.docId
+
+theorem docsOf_eq_filter (env : Env) (acts : List Act) (x : Nat) :
+    docsOf env acts x = (acts.filter (fun a => a.status env == Status.created && a.idxOf == x)).map Act.docId := by
+  unfold docsOf created
+  induction acts with
+  | nil => rfl
+  | cons a r ih =>
+    rw [List.flatMap_cons, List.filter_append, List.map_append, ih, List.filter_cons]
+    by_cases hc : a.status env = Status.created
+    · rw [storedOf_of_created env a hc]
+      by_cases hx : a.idxOf = x
+      · simp [hc, hx]
+      · simp [hc, hx]
+    · rw [storedOf_of_not_created env a hc]
+      simp [hc]
+
+/-- the repaired code at the store: for every index name, what the store took is exactly the documents of the
+items finally answered created, in request order -/
+theorem stored_eq_finalDocs (env : Env) (acts : List Act) (dangling : Option Line) (nl : Bool)
+    (hwf : ∀ a ∈ acts, a.wf) (hd : ∀ l, dangling = some l → l.kind ≠ Kind.other ∧ 0 < l.len) (x : Nat) :
+    (handleReq env (bodyOf acts dangling nl)).storedUnder x = finalDocsOf env acts x := by
+  obtain ⟨_, h2, _⟩ := handle_spec env acts dangling nl hwf hd
+  rw [storedUnder_callsOf env _ (plesFrom env acts 0) (by rw [handleReq_calls, h2]) x (plesFrom_valid env acts 0),
+    docs_plesFrom]
+  unfold finalDocsOf
+  cases hs : env.store (env.resolve x) (docsOf env acts x)
+  · -- refused: no action addressed to x is finally created
+    have : acts.filter (fun a => finalStatus env acts a == Status.created && a.idxOf == x) = [] := by
+      rw [List.filter_eq_nil_iff]
+      intro a _ h
+      simp only [Bool.and_eq_true, beq_iff_eq] at h
+      obtain ⟨hf, hx⟩ := h
+      have href : refusedIdx env acts a.idxOf = true := by simp [refusedIdx, hx, hs]
+      by_cases hc : a.status env = Status.created
+      · simp [finalStatus, hc, href] at hf
+      · rw [finalStatus_ne_created_of env acts a hc] at hf; exact hc hf
+    simp [this]
+  · rw [if_pos rfl, docsOf_eq_filter]
+    congr 1
+    apply List.filter_congr
+    intro a _
+    by_cases hx : a.idxOf = x
+    · have href : refusedIdx env acts a.idxOf = false := by simp [refusedIdx, hx, hs]
+      simp [finalStatus, href]
+    · have hb : (a.idxOf == x) = false := by simpa using hx
+      rw [hb, Bool.and_false, Bool.and_false]
 
 end SigModel.Lemmas.C15
